@@ -116,7 +116,7 @@ def run(ctx):
             cm = api.compile(ps, flags=fv, **kw)
         except Exception as e:
             continue
-        for n in ('a', 'a/', 'x', 'a/b/', '.x', 'aa', 'b', 'x/a', '.', 'a/..'):
+        for n in ('a', 'a/', 'x', 'a/b/', '.x', 'aa', 'b', 'x/a', '.', 'a/..', 'a\n', 'x\n', 'b\n', 'aa\n', 'a/\n', '\na'):
             n_l += 1
             got = any(r.fullmatch(n) for r in cp) and not any(r.fullmatch(n) for r in cn)
             if got != cm.match(n):
